@@ -227,6 +227,7 @@ func init() {
 		}
 		return len(cs)
 	}
+	zzAPI["Confirming"] = func(fr *frame, a []value) value { return false }
 	zzAPI["GuardStats"] = func(fr *frame, a []value) value {
 		st := fr.i.m.c19()
 		return st.accesses*1000 + st.lockOps
